@@ -41,13 +41,14 @@ LITS = ['a', ' ', '<', '>', '&', '&amp;', '"', "'", '$', '$$', '{', '}', '\n', '
 
 def gen_case(rng, allow_entity_in_expr):
     parts = []
-    for _ in range(rng.randint(1, 8)):
+    # (now and then a long flat template: a text template is one text node, however many expressions it holds)
+    for _ in range(rng.randint(1, 8) if rng.random() > .004 else rng.randint(300, 700)):
         if rng.random() < .55:
             parts.append(('lit', ''.join(rng.choice(LITS) for _ in range(rng.randint(1, 4)))))
         else:
             e = exprs.gen_expr(rng)
             if rng.random() < .2:
-                e = rng.choice(['o', 'h', 'by', 'nn', 'fl', 'uni', "d['q']"])
+                e = rng.choice(['o', 'h', 'by', 'nn', 'fl', 'uni', "d['q']", 'ss', 'ss'])
             if rng.random() < .15:
                 # the expression spans lines: '${' and its '}' are never on the same line
                 e = rng.choice(['\n v\n', 'n +\n 1', '\n(n,\n v)[1]\n', 's\n', '\n  uni\n  ', 'str(n) +\n t'])
